@@ -4,6 +4,7 @@ import (
 	"context"
 	"fmt"
 	"io"
+	"math"
 	"math/rand"
 	"path/filepath"
 	"strconv"
@@ -502,7 +503,11 @@ func (p *partition) Subscribe(ctx context.Context, req *client.SubscribeRequest)
 		err    error
 	)
 
-	if req.Reverse {
+	if req.Reverse && startOffset < 0 {
+		// Every message is newer than the start timestamp, so the subscription
+		// is at the beginning of the partition already.
+		reader = beginningReader{}
+	} else if req.Reverse {
 		reader, err = p.log.NewReverseReader(startOffset, false)
 	} else {
 		reader, err = p.log.NewReader(startOffset, false)
@@ -530,6 +535,17 @@ func (p *partition) Subscribe(ctx context.Context, req *client.SubscribeRequest)
 	}
 
 	return sub, nil
+}
+
+// beginningReader is the reader of a reverse subscription which starts before
+// the oldest message in the log. Like a ReverseReader which has gone past the
+// oldest message, it returns io.EOF.
+type beginningReader struct{}
+
+func (beginningReader) ReadMessage(ctx context.Context, headersBuf []byte) (
+	commitlog.SerializedMessage, int64, int64, uint64, error) {
+
+	return nil, 0, 0, 0, io.EOF
 }
 
 // newSubscribeLoop returns a function to be called in a goroutine which starts
@@ -695,6 +711,9 @@ func (p *partition) getStartOffset(req *client.SubscribeRequest) (int64, *status
 	case client.StartPosition_OFFSET:
 		startOffset = req.StartOffset
 	case client.StartPosition_TIMESTAMP:
+		if req.Reverse {
+			return p.getReverseStartOffset(req.StartTimestamp)
+		}
 		offset, err := p.log.EarliestOffsetAfterTimestamp(req.StartTimestamp)
 		if err != nil {
 			return startOffset, status.New(
@@ -721,6 +740,29 @@ func (p *partition) getStartOffset(req *client.SubscribeRequest) (int64, *status
 	return startOffset, nil
 }
 
+// getReverseStartOffset returns the offset a reverse subscription starting at
+// the given timestamp reads from. Since it reads towards the oldest message,
+// this is the offset of the newest message at or before the timestamp rather
+// than that of the oldest one at or after it. It is -1 if there is no such
+// message because the log is empty or begins after the timestamp. These are
+// errors for LatestOffsetBeforeTimestamp, so the offset is derived from the
+// earliest message past the timestamp instead.
+func (p *partition) getReverseStartOffset(startTimestamp int64) (int64, *status.Status) {
+	// No message can be past the maximum timestamp.
+	if startTimestamp == math.MaxInt64 {
+		return p.log.NewestOffset(), nil
+	}
+	// The offset preceding the earliest message past the timestamp might have
+	// been removed by compaction. The reader starts at the newest message at
+	// or below it.
+	offset, err := p.log.EarliestOffsetAfterTimestamp(startTimestamp + 1)
+	if err != nil {
+		return 0, status.New(
+			codes.Internal, fmt.Sprintf("Failed to lookup offset for timestamp: %v", err))
+	}
+	return offset - 1, nil
+}
+
 func (p *partition) getStopOffset(req *client.SubscribeRequest) (int64, *status.Status) {
 	var stopOffset int64
 	switch req.StopPosition {
@@ -736,7 +778,13 @@ func (p *partition) getStopOffset(req *client.SubscribeRequest) (int64, *status.
 		stopOffset = req.StopOffset
 	case client.StopPosition_STOP_TIMESTAMP:
 		var err error
-		stopOffset, err = p.log.LatestOffsetBeforeTimestamp(req.StopTimestamp)
+		if req.Reverse {
+			// A reverse subscription reads towards the oldest message, so it
+			// ends at the oldest message at or after the timestamp.
+			stopOffset, err = p.log.EarliestOffsetAfterTimestamp(req.StopTimestamp)
+		} else {
+			stopOffset, err = p.log.LatestOffsetBeforeTimestamp(req.StopTimestamp)
+		}
 		if err != nil {
 			return stopOffset, status.New(
 				codes.Internal, fmt.Sprintf("Failed to lookup offset for timestamp: %v", err))
